@@ -146,6 +146,62 @@ class Conv:
         return dict(outcomes=outcomes, streams={k: bytes(v) for k, v in streams.items()}, ids=ids, steps=steps, wouldblock=s.wouldblock, later=later,
                     later_req=locals().get('later_req'))
 
+
+    def run_reconnect_refused(self, how):
+        """a connection is established and used, then closed by the peer; the next connection attempt is refused (or never completes):
+        the request waiting for it must end with a network error within a few runs - not spin until the send timeout"""
+        s = self.s
+        c = s.cmd
+        now = 1700000000
+        c('clock %d' % now)
+        c('async_new 0 0 sign')
+        c('async_endpoint 0 set ksi+tcp://agg.example:3332 anon anon')
+        c('async_opt 0 cache_size 4')
+        c('async_opt 0 max_request_count 1000')
+        c('async_opt 0 snd_timeout 3000')
+        c('async_opt 0 rcv_timeout 3000')
+        c('async_opt 0 con_timeout 5')
+        c('net_ep agg.example 3332 connect=0 send=- recv=-')
+        nconn0 = len(s.tcp_order)
+        h0 = self.hashes[0]
+        q = c('async_add 0 0 sign %s 0 first' % h0.hex())
+        rid = int(q['reqid'])
+        first = None
+        for _ in range(6):
+            now += 1
+            c('clock %d' % now)
+            q = c('async_run 0')
+            if q.get('handle') == '1' and q.get('tag') == 'first':
+                first = int(q['state'])
+                break
+            oc = [i for i in s.tcp_order[nconn0:] if i['open']]
+            if oc and oc[-1]['sent']:
+                oc[-1]['sent'] = bytearray()
+                c('net_push %d %s' % (oc[-1]['fd'], reply_for(random.Random('rr'), rid, h0, None).hex()))
+        if first != 3:
+            c('async_free 0')
+            return ('first-request-not-completed', first)
+        for i in [i for i in s.tcp_order[nconn0:] if i['open']]:
+            c('net_eof %d' % i['fd'])
+        c('async_run 0')
+        c('net_ep agg.example 3332 connect=%d send=- recv=-' % (2 if how == 'refused' else 4))
+        q = c('async_add 0 0 sign %s 0 second' % R.H(1, b'second/' + self.label.encode()).hex())
+        if q.rc != 0:
+            c('async_free 0')
+            return ('second-add-refused', q.rc)
+        out = ('never-returned',)
+        for k in range(12):
+            now += 1
+            c('clock %d' % now)
+            q = c('async_run 0')
+            if q.get('handle') == '1' and q.get('tag') == 'second':
+                out = ('returned', int(q['state']), int(q.get('herr', 0)), k + 1)
+                break
+        nconn = len(s.tcp_order) - nconn0
+        c('net_ep agg.example 3332 connect=0 send=- recv=-')
+        c('async_free 0')
+        return out + (nconn,)
+
     def run_client_fault(self, k, kind):
         """the first request is cut after k bytes by a would-block; then the peer closes ('eof') or the send timeout expires
         ('timeout'); afterwards everything is healthy again and one more request is added. Returns streams/outcomes."""
@@ -360,6 +416,14 @@ def async_part(job, r):
                         cv.viol('client-fault:%s:later-request-hangs' % kind, 'request added after the fault (cut after %d bytes) never returned' % k, '')
                     elif o[0] != 'resp' or o[2] != res['hashes'][ex].hex():
                         cv.viol('client-fault:%s:later-request-fails' % kind, 'request added after the fault (first request cut after %d bytes, then %s) did not complete with its reply: %s' % (k, kind, o), '')
+        # re-connect after an established connection was closed: refused / never completing
+        if ci < 6:
+            for how in ('refused', 'hanging'):
+                res = cv.run_reconnect_refused(how)
+                r.observe(('reconnect', how, res[0], res[1:3]))
+                r.count('reconnect_%s_%s' % (how, res[0]))
+                if res[0] != 'returned' or res[1] != 5 or res[2] not in NET_ERRS:
+                    cv.viol('reconnect-%s:request-not-failed' % how, 'after an established connection was closed by the peer the next connection attempt is %s: the waiting request should end with a network error within 12 runs (connect timeout 5 s, send timeout 3000 s), got %s' % (how, res), 'how=%s' % how)
         # faults at byte offsets of the server stream
         offs = range(0, L + 1) if L <= 400 else sorted(set([0, 1, 2, 3, 4, 5, L - 1, L] + rng.sample(range(L), 25)))
         for off in offs:
